@@ -115,6 +115,7 @@ def _indep():
 
 
 INDEP = _indep()
+INDEP_SMALL = [(t_, ref.evaluate(ref.rparse(ref.rtok(t_)), {})[0]) for t_ in ("1+(1+(1+(1+1)))", "acc = 0; acc += 2; acc += 2; acc * 1.5", "max(max(3, 2), 2) + min(5, sum(1, 2, 3))")]
 
 
 def run_shard(desc):
@@ -381,12 +382,13 @@ def run_shard(desc):
                 plans.append(plan)
             # bystanders: threads that evaluate programs naming nothing that is being registered (deeply nested, long, assigning, calling
             # built-ins) on their own fresh contexts; whatever the other threads do, each evaluation must give its sequential result
-            n_indep = 2 if os.environ.get("VERIF_TOOL") == "miri" else 6
-            indep_progs = INDEP if os.environ.get("VERIF_TOOL") != "miri" else INDEP[:2]
+            miri_ = os.environ.get("VERIF_TOOL") == "miri"
+            n_indep = 2 if miri_ else 6
+            indep_progs = INDEP if not miri_ else INDEP_SMALL  # the interpreter is ~4 orders of magnitude slower
             first_indep = len(plans)
             for j in range(n_indep):
                 plan = []
-                for q in range(2 * nn * 4):
+                for q in range(2 * nn * 4 if not miri_ else 6):
                     k = (q + j) % len(indep_progs)
                     plan.append({"op": "hammer", "n": max(1, block // 8), "text": indep_progs[k][0], "tag": "indep:%d" % k})
                 plans.append(plan)
